@@ -17,11 +17,12 @@ def _write_if_changed(path, text):
 
 
 def run_all():
-    from . import constants, lifecycle
+    from . import constants, lifecycle, checkgen
     out = {}
     gen = os.path.join(common.LEAN_DIR, 'Sparrow', 'Generated')
-    for name, mod in (('Constants', constants), ('Lifecycle', lifecycle)):
+    for name, mod in (('Constants', constants), ('Lifecycle', lifecycle), ('Check', checkgen)):
         text, facts = mod.generate()
         changed = _write_if_changed(os.path.join(gen, name + '.lean'), text)
         out[name] = {'changed': changed, 'facts': facts}
+    _write_if_changed(os.path.join(gen, 'CheckParse.lean'), checkgen.PARSER_TEXT)
     return out
